@@ -37,7 +37,7 @@ C18_OPS = [
     'remove', 'replace', 's_disconnect_source', 's_disconnect_sink', 's_disconnect',
     'pipe_in', 'pipe_out', 'pipe_units', 'pipe_streams_in', 'pipe_streams_out',
     'u_disconnect', 'u_insert', 'take_place_of', 'replace_with', 'get_connection',
-    'reconnect', 'placeholder_op',
+    'reconnect', 'placeholder_op', 'bad_slice',
 ]
 
 
@@ -63,6 +63,9 @@ def make_cfg(rng, prop, tier):
             'world': 'C19', 'steps': rng.randint(*tier.get('steps', (4, 10))),
             'n_units': rng.randint(2, 10), 'back_edges': rng.choice([0, 0, 1, 2, 3]),
             'feed_ties': rng.random() < 0.3, 'self_loops': rng.random() < 0.2,
+            # persistent: the unit and stream OBJECTS live through the run; networks are rebuilt from them after
+            # re-wiring (two units of equal shape exchange all their connections) and after refused assignments
+            'persistent': rng.random() < 0.4,
             'regions': list(tier.get('regions', [])),
         }
     raise ValueError(prop)
@@ -190,7 +193,10 @@ class WiringWorld(BaseWorld):
                 return out
             ins = spec(n_ins, fi, 'ins')
             outs = spec(n_outs, fo, 'outs')
-            return {'op': op, 'name': f'u{len(self.units)}', 'kind': kind, 'ins': ins, 'outs': outs}
+            ev = {'op': op, 'name': f'u{len(self.units)}', 'kind': kind, 'ins': ins, 'outs': outs}
+            if r.random() < 0.3:
+                ev['id'] = 'aux'      # unregistered (dotted) IDs may repeat, as auxiliary units' do
+            return ev
         u = self._rand_unit(r)
         if op in ('s_disconnect_source', 's_disconnect_sink', 's_disconnect'):
             return {'op': op, 'stream': self._rand_stream(r)}
@@ -219,6 +225,17 @@ class WiringWorld(BaseWorld):
             names = r.sample(sorted(self.streams), min(k, len(self.streams)))
             names = [None if r.random() < 0.1 else x for x in names]
             return {'op': op, 'unit': u, 'side': side, 'start': a, 'stop': b, 'streams': names}
+        if op == 'bad_slice':
+            # F7: a slice assignment that has to be refused (one item is not a stream); the caller catches the
+            # TypeError and carries on - the connections must be what they were
+            a = r.randint(0, n)
+            b = r.randint(a, n)
+            if r.random() < 0.5:
+                a, b = 0, None
+            k = r.randint(0, 3)
+            names = r.sample(sorted(self.streams), min(k, len(self.streams)))
+            return {'op': op, 'unit': u, 'side': side, 'start': a, 'stop': b, 'streams': names,
+                    'junk_at': r.randint(0, len(names))}
         if op in ('append', 'insert'):
             ev = {'op': op, 'unit': u, 'side': side, 'stream': self._rand_stream(r)}
             if op == 'insert':
@@ -362,6 +379,9 @@ class WiringWorld(BaseWorld):
                 return False
             j = self._index(seq, s)
             return j is None or j == i
+        if op == 'bad_slice':
+            return (0 <= ev['junk_at'] <= len(ev['streams']) and None not in ev['streams']
+                    and self.pre(dict(ev, op='set_slice')))
         if op == 'set_slice':
             seq = self._ports(ev['unit'], ev['side'])
             n = len(seq._streams)
@@ -569,7 +589,7 @@ class WiringWorld(BaseWorld):
             kw = {}
             ins = self._spec_to_arg(ev['ins'])
             outs = self._spec_to_arg(ev['outs'])
-            u = cls('.' + ev['name'], ins, outs)
+            u = cls('.' + (ev.get('id') or ev['name']), ins, outs)
             U[ev['name']] = u
             return None
         if op == 's_disconnect_source':
@@ -612,6 +632,20 @@ class WiringWorld(BaseWorld):
             names = [x for x in ev['streams'] if x is not None]
             return lambda: self._expect(all(self._in_list(seq, S[x]) for x in names), ev,
                                         'slice-assigned stream missing from the port list')
+        if op == 'bad_slice':
+            seq = self._ports(ev['unit'], ev['side'])
+            items = [self._stream(x) for x in ev['streams']]
+            items.insert(ev['junk_at'], 'not-a-stream')
+            before = (list(seq._streams), [(s._source, s._sink) for s in S.values()])
+            try:
+                seq[ev['start']:ev['stop']] = items
+            except TypeError:
+                self.stats['bad_slice_refused'] += 1
+                after = (list(seq._streams), [(s._source, s._sink) for s in S.values()])
+                same = (len(before[0]) == len(after[0]) and all(x is y for x, y in zip(before[0], after[0]))
+                        and all(a[0] is b[0] and a[1] is b[1] for a, b in zip(before[1], after[1])))
+                return lambda: self._expect(same, ev, 'a refused slice assignment changed the connections')
+            return lambda: self._expect(False, ev, 'a slice holding a non-stream item was accepted')
         if op == 'append':
             seq = self._ports(ev['unit'], ev['side'])
             s = S[ev['stream']]
@@ -828,12 +862,23 @@ class OrderWorld(BaseWorld):
         warnings.filterwarnings('ignore')
         self.spec = None
         self.regions = set(cfg.get('regions', []))
+        self.objs = None          # persistent mode: (unit objects by role, streams by name)
 
     # ---------------------------------------------------------------- gen
     def gen(self, rngs):
         if self.spec is None:
             return {'op': 'graph', 'spec': self._gen_graph(rngs.universe)}
         n = len(self.spec['units'])
+        if self.cfg.get('persistent') and self.objs is not None and rngs.sched.random() < 0.45:
+            r = rngs.args
+            if r.random() < 0.7:
+                shape = lambda i: (self.spec['units'][i]['n_ins'], self.spec['units'][i]['n_outs'])
+                pairs = [(i, j) for i in range(n) for j in range(i + 1, n) if shape(i) == shape(j)]
+                if pairs:
+                    a, b = r.choice(pairs)
+                    return {'op': 'swap', 'a': a, 'b': b}
+            return {'op': 'bad_slice', 'unit': r.randrange(n), 'side': r.choice(['ins', 'outs']),
+                    'junk_at': r.randint(0, 3)}
         perm = list(range(n))
         rngs.sched.shuffle(perm)
         return {'op': 'network', 'perm': perm, 'hash_seed': rngs.fault.getrandbits(32)}
@@ -954,6 +999,10 @@ class OrderWorld(BaseWorld):
             self.stats['op:graph'] += 1
             self.stats['graphs_cyclic' if self.cyclic else 'graphs_acyclic'] += 1
             return {'cyclic': self.cyclic, 'sccs': len(self.scc_sets)}
+        if ev['op'] in ('swap', 'bad_slice'):
+            if self.spec is None or self.objs is None or not self.cfg.get('persistent'):
+                return 'skip:pre'
+            return self._rewire(ev)
         if ev['op'] != 'network' or self.spec is None:
             return 'skip:pre'
         n = len(self.spec['units'])
@@ -961,7 +1010,14 @@ class OrderWorld(BaseWorld):
             return 'skip:pre'
         self.stats['op:network'] += 1
         self.stats['mechanism_ops'] += 1
-        units, streams = self._build(ev['hash_seed'])
+        if self.cfg.get('persistent'):
+            if self.objs is None:
+                self.objs = self._build(ev['hash_seed'])
+            else:
+                self.stats['probe:network_rebuilt_from_aged_objects'] += 1
+            units, streams = self.objs
+        else:
+            units, streams = self._build(ev['hash_seed'])
         ordered = [units[i] for i in ev['perm']]
         with warnings.catch_warnings(record=True) as wlist:
             warnings.simplefilter('always')
@@ -1017,6 +1073,51 @@ class OrderWorld(BaseWorld):
                               f'share no recycle loop', detail)
         self.last_path = tuple(order)
         return {'path': order, 'n_recycles': len(recycles)}
+
+    def _rewire(self, ev):
+        units, streams = self.objs
+        n = len(units)
+        if ev['op'] == 'swap':
+            a, b = ev['a'], ev['b']
+            sh = self.spec['units']
+            if not (0 <= a < n and 0 <= b < n and a != b
+                    and (sh[a]['n_ins'], sh[a]['n_outs']) == (sh[b]['n_ins'], sh[b]['n_outs'])):
+                return 'skip:pre'
+            A, B = units[a], units[b]
+            ia, oa, ib, ob = list(A.ins), list(A.outs), list(B.ins), list(B.outs)
+            with warnings.catch_warnings():
+                warnings.simplefilter('ignore')
+                A.ins[:] = ib
+                B.ins[:] = ia
+                A.outs[:] = ob
+                B.outs[:] = oa
+            # the object that played role a now has role b's connections, and vice versa: same flowsheet,
+            # the two unit OBJECTS exchanged their places
+            units[a], units[b] = B, A
+            for role in (a, b):
+                u = units[role]
+                want_in = ib if u is A else ia
+                want_out = ob if u is A else oa
+                if [x for x in u.ins] != want_in or [x for x in u.outs] != want_out:
+                    return 'skip:rewire-not-applied'     # C18's subject, not judged here
+                if any(x.sink is not u for x in want_in if x) or any(x.source is not u for x in want_out if x):
+                    return 'skip:rewire-not-applied'
+            self.stats['fault:rewire_same_objects'] += 1
+            return 'ok'
+        # bad_slice (F7): a slice assignment that must be refused; the caller catches the error and goes on
+        u = units[ev['unit'] % n]
+        seq = u.ins if ev['side'] == 'ins' else u.outs
+        items = list(seq)
+        items[min(ev['junk_at'], len(items) - 1)] = 'not-a-stream'
+        try:
+            seq[:] = items
+        except TypeError:
+            self.stats['fault:refused_assignment'] += 1
+            return 'exc-rejected'
+        except Exception as e:
+            self.stats[f'exc:bad_slice:{type(e).__name__}'] += 1
+            return f'exc:{type(e).__name__}'
+        self.fail('non-stream-accepted', 'a port list accepted an item that is not a stream', {'event': ev})
 
     def _sname(self, s, streams):
         for k, v in streams.items():
@@ -1122,4 +1223,6 @@ class OrderWorld(BaseWorld):
     def shared_touch(self, ev):
         if ev['op'] == 'network':
             return (ev['perm'], ev['hash_seed'] & 0xff)
+        if ev['op'] in ('swap', 'bad_slice'):
+            return (ev['op'], ev.get('a'), ev.get('b'), ev.get('unit'))
         return None
